@@ -18,16 +18,16 @@ Definition rstart : rstate := {| wpc := WDeferred; mpc := MWaiting; signalled :=
 
 Inductive rstep_result := Goes (s : rstate) | Ends (status : Z).
 
-(* the handler as it is: wg.Done() first, the re-raised panic last *)
-Definition worker_step (s : rstate) : rstep_result :=
+(* the handler before the repair: wg.Done() first, the re-raised panic last *)
+Definition worker_step_prefix (s : rstate) : rstep_result :=
   match wpc s with
   | WDeferred => Goes {| wpc := WSignalled; mpc := mpc s; signalled := true |}
   | WSignalled => Goes {| wpc := WLogged; mpc := mpc s; signalled := signalled s |}
   | WLogged => Ends 2      (* panic(err): the runtime prints the trace and exits with status 2 *)
   end.
 
-(* the handler with the order repaired: a panicking worker never signals *)
-Definition worker_step_fixed (s : rstate) : rstep_result :=
+(* the handler as it is: the wait group is signalled only when there was no panic; a panicking worker never signals *)
+Definition worker_step (s : rstate) : rstep_result :=
   match wpc s with
   | WDeferred => Goes {| wpc := WLogged; mpc := mpc s; signalled := signalled s |}
   | WSignalled => Goes s
